@@ -16,6 +16,7 @@ TRANSLATORS = [
     ('gen_lexer', ['Atoms.v', 'Rules.v', 'CaseTabs.v', 'KwTabs.v']),
     ('gen_splitter', ['SplitTab.v']),
     ('gen_singleton', ['SingletonProg.v']),
+    ('gen_case2', ['CaseTabs2.v']),
 ]
 
 
